@@ -8,7 +8,7 @@ C == INSTANCE Condition WITH D <- Cases[tid].design, L <- Cases[tid].cycles[l]
 NLines == Len(Cases[tid].cycles)
 PropNames == {"BranchNeedsParentCondAndCallees", "AtMostOneBranch", "DefaultOnlyIfNoCond",
               "ParentNeedsBranchUnlessNonblocking", "PriorityFirstAdmissible"}
-ModelNames == {"ModelBodyRunsIffCan", "ModelBranchChoice", "ModelTargetRuns", "ModelTargetArg", "ModelTargetReady"}
+ModelNames == {"ModelBodyRunsIffCan", "ModelBranchChoice", "ModelTargetRuns", "ModelTargetArg", "ModelTargetReady", "ModelWitness"}
 Holds(n) ==
   CASE n = "BranchNeedsParentCondAndCallees" -> C!BranchNeedsParentCondAndCallees
     [] n = "AtMostOneBranch" -> C!AtMostOneBranch
@@ -19,6 +19,7 @@ Holds(n) ==
     [] n = "ModelBranchChoice" -> C!ModelBranchChoice
     [] n = "ModelTargetRuns" -> C!ModelTargetRuns
     [] n = "ModelTargetArg" -> C!ModelTargetArg
+    [] n = "ModelWitness" -> C!ModelWitness
     [] OTHER -> C!ModelTargetReady
 Failing == {n \in PropNames \cup ModelNames : ~Holds(n)}
 Init == tid \in 1..Len(Cases) /\ l = 1 /\ status = "go"
